@@ -465,7 +465,7 @@ def gen_allin(rng, variant):
         sub = 'all present'
     elif v == 1:                                      # exactly one missing, at any position
         items = rng.sample(words, min(n_items - 1, len(words)))
-        items.insert(rng.randrange(len(items) + 1), gen_word(rng, 7, 9))
+        items.insert(len(items) if rng.random() < 0.4 else rng.randrange(len(items) + 1), gen_word(rng, 7, 9))
         sub = 'one missing'
     elif v == 2:                                      # only one present, at any position
         items = [gen_word(rng, 7, 9) for _ in range(max(1, n_items - 1))]
@@ -482,7 +482,7 @@ def gen_allin(rng, variant):
         if not valid_word(near) or near in lst:
             near = e + 'q'
         items = rng.sample(words, min(n_items - 1, len(words)))
-        items.insert(rng.randrange(len(items) + 1), near)
+        items.insert(len(items) if rng.random() < 0.4 else rng.randrange(len(items) + 1), near)
         sub = 'near miss (substring/superstring of an element)'
     else:                                             # item equal to the concatenation / text of the list
         items = [''.join(words[:2]) if len(words) > 1 else words[0] + words[0]]
@@ -760,7 +760,7 @@ def run(ctx):
         if ctx.mine(i):
             ctx.sample('directed/' + case['kind'], case)
             evaluate(ctx, case)
-    nblocks = ctx.pick(320, 10400)
+    nblocks = ctx.pick(300, 10400)
     for b in range(nblocks):
         if not ctx.mine(b):
             continue
